@@ -60,8 +60,8 @@ def gen_reflect(ctx, n):
     rng = ctx.rng
     out = []
     for i in range(n):
-        m = rng.choice([1, 1, 2, 3, 3, 4, 5])
-        shared = m > 1 and rng.random() < 0.3
+        m = rng.choice([1, 1, 2, 3, 3, 4, 5]) if i not in (1, 3) else 2
+        shared = m > 1 and rng.random() < 0.3 and i not in (1, 3)
         rays, nrms = [], []
         for j in range(m):
             rays.append([[rng.uniform(-2, 2) for _ in range(3)], unit(rng).tolist()])
@@ -70,7 +70,10 @@ def gen_reflect(ctx, n):
             nv = unit(rng) * length * rng.choice([-1, 1])
             nrms.append([[rng.uniform(-2, 2) for _ in range(3)], nv.tolist()])
         two_d = m == 1 and rng.random() < 0.5
-        out.append({'rays': rays, 'normals': nrms, 'two_d': two_d, 'kind': 'shared' if shared else ('2d' if two_d else 'rows%d' % m)})
+        kind = 'shared' if shared else ('2d' if two_d else 'rows%d' % m)
+        if m > 1 and not shared and (rng.random() < 0.3 or i in (1, 3)):
+            rays = rays[:1]; kind = 'one-ray-x-%d-normals' % m                      # ONE ray reflected about m normals
+        out.append({'rays': rays, 'normals': nrms, 'two_d': two_d, 'kind': kind})
     return out
 
 
@@ -96,16 +99,30 @@ def gen_refract(ctx, n):
             theta = rng.uniform(0, tmax) if rng.random() < 0.8 else rng.choice([0.0, tmax, tmax / 2])
             d = direction_at(nhat * rng.choice([-1, 1]), theta, rng)
             rays.append([[rng.uniform(-2, 2) for _ in range(3)], d.tolist()])
+        shape = '/shared' if shared else '/rows%d' % m
+        if m > 1 and not shared and (rng.random() < 0.3 or i in (1, 3, 5, 7)):
+            # ONE ray refracted at m surfaces: keep the normals against which ray 0 has a transmitted solution away from the critical angle
+            d0 = np.array(rays[0][1]); keep = []
+            for nr_ in nrms:
+                nv = np.array(nr_[1]); c = abs(d0 @ nv) / np.linalg.norm(nv)
+                if mu * math.sqrt(max(0.0, 1 - c * c)) <= 0.97 and c >= math.cos(math.radians(87)):
+                    keep.append(nr_)
+            if len(keep) >= 2:
+                rays, nrms, shape = rays[:1], keep, '/one-ray-x-%d-normals' % len(keep)
         out.append({'rays': rays, 'normals': nrms, 'n1': n1, 'n2': n2, 'error': error,
-                    'kind': ('same-index' if n1 == n2 else ('to-denser' if mu < 1 else 'to-rarer')) + ('/shared' if shared else '/rows%d' % m)})
+                    'kind': ('same-index' if n1 == n2 else ('to-denser' if mu < 1 else 'to-rarer')) + shape})
     return out
 
 
 # ---------------------------------------------------------------- direct oracles
+def nrows(inp):
+    return max(len(inp['rays']), len(inp['normals']))
+
+
 def rows(inp):
-    m = len(inp['rays'])
-    for i in range(m):
-        r = inp['rays'][i]; nr = inp['normals'][0 if len(inp['normals']) == 1 else i]
+    """(i, ray origin, direction, hit point, normal) for every row of the output; a single ray or a single normal is shared"""
+    for i in range(nrows(inp)):
+        r = inp['rays'][0 if len(inp['rays']) == 1 else i]; nr = inp['normals'][0 if len(inp['normals']) == 1 else i]
         yield i, np.array(r[0], float), np.array(r[1], float), np.array(nr[0], float), np.array(nr[1], float)
 
 
@@ -123,7 +140,7 @@ def call_reflect(inp):
 def oracle_reflect(inp):
     """law of reflection for every ray of the batch, in one API"""
     tol = TOL32 if inp['api'] == 'torch' else TOL64
-    m = len(inp['rays'])
+    m = nrows(inp)
     out = call_reflect(inp)
     res = []
     if inp['api'] == 'numpy' and m == 1:
@@ -133,7 +150,7 @@ def oracle_reflect(inp):
     res.append(('output_shape', ok_shape, '%d x 2 x 3' % m, list(out.shape)))
     if not ok_shape:
         return res
-    twice = call_reflect(dict(inp, rays=[[inp['rays'][i][0], out[i, 1].tolist()] for i in range(m)])).reshape(m, 2, 3)
+    twice = call_reflect(dict(inp, rays=[[inp['rays'][0 if len(inp['rays']) == 1 else i][0], out[i, 1].tolist()] for i in range(m)])).reshape(m, 2, 3)
     w = {'finite': 0.0, 'length': 0.0, 'normal_component': 0.0, 'tangential_component': 0.0, 'coplanar': 0.0, 'involutive': 0.0, 'origin': 0.0}
     for i, o, d, p, n in rows(inp):
         if inp['api'] == 'torch':
@@ -174,8 +191,8 @@ def w_refract(inp, rows_=None):
     lr, _ = api()
     rays = torch.tensor(inp['rays'], dtype=torch.float32); nrms = torch.tensor(inp['normals'], dtype=torch.float32)
     if rows_ is not None:
-        k = 0 if nrms.shape[0] == 1 else rows_
-        rays = rays[rows_:rows_ + 1]; nrms = nrms[k:k + 1]
+        k = 0 if nrms.shape[0] == 1 else rows_; kr = 0 if rays.shape[0] == 1 else rows_
+        rays = rays[kr:kr + 1]; nrms = nrms[k:k + 1]
     if inp.get('two_d'): rays, nrms = rays[0], nrms[0]
     kw = {} if inp.get('error') is None else {'error': inp['error']}
     return lr.refract(rays, nrms, inp['n1'], inp['n2'], **kw).tolist()
@@ -190,7 +207,7 @@ def w_refract64(v, n, n1, n2, kw):
 def guarded(fn, *args):
     kind, val = guard().call(fn, *args)
     if kind == 'timeout':
-        raise NoReturn('no return within %s s (watchdog)' % val if val else 'not called: the watchdog expired %d times already' % guard().timeouts)
+        raise NoReturn('no return (watchdog: %s)' % val if val else 'not called: the watchdog expired %d times already' % guard().timeouts)
     if kind == 'exc':
         raise RuntimeError(val)
     return np.array(val, float)
@@ -202,7 +219,7 @@ def call_refract(inp, rows_=None):
 
 def oracle_refract(inp):
     """Snell's law for every ray of the batch (inputs with a transmitted solution)"""
-    m = len(inp['rays']); err = 0.01 if inp.get('error') is None else inp['error']
+    m = nrows(inp); err = 0.01 if inp.get('error') is None else inp['error']
     n1, n2 = inp['n1'], inp['n2']; mu = n1 / n2
     out = call_refract(inp)
     res = [('output_shape', out.shape == (m, 2, 3), '%d x 2 x 3' % m, list(out.shape))]
@@ -300,14 +317,14 @@ def compose_refract(g, v, n, n1, n2, error, cap):
     """the traced pieces of `refract` composed by the loop (one ray), evaluated in float64"""
     nan = float('nan')
     env = dict(env_rows('v', v), **env_rows('n', n)); env.update({'n1': n1, 'n2': n2, 'NaN': nan})
-    a, b, div, to, mu = (g.evalf(x, env) for x in ('g_rf_a', 'g_rf_b', 'g_rf_div', 'g_rf_to', 'g_rf_mu'))
+    to = g.evalf('g_rf_to', env)
     eps, num, it = float('inf'), 0.0, 0
     while g.evalf('g_rf_guard1', {'eps_0': eps, 'error': error, 'num': num, 'cap': cap}):
-        st = {'to_0': to, 'a_0': a, 'b_0': b, 'div_0': div}
+        st = dict(env, to_0=to)
         to, eps, num = g.evalf('g_rf_step', st), g.evalf('g_rf_eps', st), g.evalf('g_rf_num', {'num': num})
         it += 1
         if it > 100000: raise RuntimeError('composed loop does not stop')
-    env2 = dict(env, to_0=to, eps_0=eps, error=error, mu=mu)
+    env2 = dict(env, to_0=to, eps_0=eps, error=error)
     return np.array([[g.evalf('g_rf_out_o_%d' % k, env2) for k in range(3)], [g.evalf('g_rf_out_d_%d' % k, env2) for k in range(3)]]), it
 
 
@@ -323,7 +340,7 @@ def self_check(ctx, g, info, rcases, fcases):
         if 'ns_refl_d_1_2' not in g.by_name:
             break
         m = len(c['rays']); rays = np.array(c['rays'], float); nrms = np.array(c['normals'], float)
-        if m == 1:
+        if m == 1 and len(c['normals']) == 1:
             env = dict(env_rows('v', rays), **env_rows('n', nrms))
             o64 = np.asarray(nr.reflect(rays[0], nrms[0]), float)
             o32 = lr.reflect(torch.tensor(rays, dtype=torch.float32), torch.tensor(nrms, dtype=torch.float32)).numpy().astype(float)
@@ -343,6 +360,16 @@ def self_check(ctx, g, info, rcases, fcases):
                 for k in range(3):
                     cmp('nb_refl_d_%d_%d' % (i, k), g.evalf('nb_refl_d_%d_%d' % (i, k), env), o64[i, 1, k], 1e-9, 1e-11)
                     cmp('tb_refl_d_%d_%d' % (i, k), g.evalf('tb_refl_d_%d_%d' % (i, k), env32), o32[i, 1, k], 1e-4, 2e-5)
+        elif m == 1 and len(c['normals']) == 2 and 't1m_refl_d_1_2' in g.by_name:
+            env = dict(env_rows('v', rays), **env_rows('n', nrms))
+            o64 = np.asarray(nr.reflect(rays, nrms), float)
+            o32 = lr.reflect(torch.tensor(rays, dtype=torch.float32), torch.tensor(nrms, dtype=torch.float32)).numpy().astype(float)
+            env32 = {k: float(np.float32(x)) for k, x in env.items()}
+            for i in range(2):
+                for k in range(3):
+                    cmp('n1m_refl_d_%d_%d' % (i, k), g.evalf('n1m_refl_d_%d_%d' % (i, k), env), o64[i, 1, k], 1e-9, 1e-11)
+                    cmp('n1m_refl_o_%d_%d' % (i, k), g.evalf('n1m_refl_o_%d_%d' % (i, k), env), o64[i, 0, k], 0, 0)
+                    cmp('t1m_refl_d_%d_%d' % (i, k), g.evalf('t1m_refl_d_%d_%d' % (i, k), env32), o32[i, 1, k], 1e-4, 2e-5)
         elif m == 3 and len(c['normals']) == 3:
             env = dict(env_rows('v', rays), **env_rows('n', nrms))
             o64 = np.asarray(nr.reflect(rays, nrms), float)
@@ -353,8 +380,8 @@ def self_check(ctx, g, info, rcases, fcases):
     extra = [{'rays': [[[0, 0, 1], [0.8, 0.0, -0.6]]], 'normals': [[[0.1, 0.2, 0.0], [0.0, 0.0, 2.0]]], 'n1': 1.5, 'n2': 1.0, 'error': 0.01},
              {'rays': [[[0, 0, 1], [0.6, 0.0, -0.8]]], 'normals': [[[0.1, 0.2, 0.0], [0.0, 0.0, 0.5]]], 'n1': 1.0, 'n2': 1.5, 'error': 1e-9, 'cap': 2}]
     for c in (fcases + extra if info is not None else []):
-        if len(c['rays']) != 1:
-            continue
+        if len(c['rays']) != 1 or len(c['normals']) != 1:
+            continue                                                  # rows of a batch leave the loop together: compared by the oracles
         v = np.array(c['rays'], float); nn = np.array(c['normals'], float)
         kw = {'error': c['error']}
         cap = c.get('cap', info['defaults'].get('max_iterations', 0))
@@ -372,9 +399,11 @@ def self_check(ctx, g, info, rcases, fcases):
 
 
 def loop_control(ctx, info):
-    """the part of `refract` that is not a formula: how the loop is entered"""
-    ok_num = info['init'].get('num', '').strip() == '0'
-    ctx.obligation('refract:loop-counter-starts-at-0', ok_num, repr(info['init'].get('num')))
+    """the part of `refract` that is not a formula: how the loop is entered, and which names its body may change"""
+    # (that the loop carries exactly the Newton variable, the step size and the counter is checked by the recipe from the data flow:
+    #  a body that also changed a name read by the next pass or by the epilogue makes RefractCut fail closed)
+    ok_num = info['init'].get('counter', '').strip() == '0'
+    ctx.obligation('refract:loop-counter-starts-at-0', ok_num, repr(info['init'].get('counter')))
     try:
         val = eval(info['init']['eps'], {'torch': torch, 'float': float}, {'vector': torch.zeros(3, 2, 3), 'error': 0.0})
         entered = bool(torch.isinf(val).all() and (val > 0).all()) and tuple(val.shape) == (3,)
